@@ -14,7 +14,7 @@ from ..util import exc_site, short_msg
 
 def gen_data_params(rng, *, n_files=None, small=False, tie_free=True, level_cols_p=0.2, allow_scan_only=True):
     n_files = n_files or rng.choice([1, 1, 1, 2, 3])
-    n_spec = rng.randint(70, 110) if small else rng.randint(100, 220)
+    n_spec = rng.randint(90, 150) if small else rng.randint(100, 220)
     extras = [c for c in ("filename", "ret_time", "ExpMass") if rng.random() < 0.45]
     if not extras and not allow_scan_only:
         extras = [rng.choice(["filename", "ret_time", "ExpMass"])]
